@@ -44,3 +44,23 @@ func verifLemma_C24_top_more_than_there_are() {
 	verifrt.Assert(ok && len(a.Keys) == 2 && len(a.Values) == 2, "two-entries")
 	verifrt.Assert(a.Values[0].(int) == 2 && a.Keys[0].(int) == 8 && a.Values[1].(int) == 1 && a.Keys[1].(int) == 7, "all-kept-in-order")
 }
+
+// C23 (bounded shapes): count-values, count-keys and sum-by-key use the values / keys of the
+// collection as Go map keys; a value that cannot be hashed (a collection, a call
+// expression) must give an error, not a panic in the server process.
+func verifLemma_C23_count_values_of_unhashable_values() {
+	inner := b6.ArrayCollection[any, any]{Keys: []any{1}, Values: []any{2}}.Collection()
+	c := b6.ArrayCollection[any, any]{Keys: []any{3, 4}, Values: []any{inner, inner}}.Collection()
+	_, err := countValues(nil, c)
+	verifrt.Assert(err != nil, "unhashable-values-are-reported")
+	ok := b6.ArrayCollection[any, any]{Keys: []any{3, 4, 5}, Values: []any{7, 8, 7}}.Collection()
+	_, err = countValues(nil, ok)
+	verifrt.Assert(err == nil, "hashable-values-are-counted")
+}
+
+func verifLemma_C23_count_keys_of_unhashable_keys() {
+	inner := b6.ArrayCollection[any, any]{Keys: []any{1}, Values: []any{2}}.Collection()
+	c := b6.ArrayCollection[any, any]{Keys: []any{inner}, Values: []any{1}}.Collection()
+	_, err := countKeys(nil, c)
+	verifrt.Assert(err != nil, "unhashable-keys-are-reported")
+}
